@@ -39,6 +39,8 @@ pub fn units(tier: &str, seed: u64) -> Vec<String> {
         // user gives forced factors with other values (must be overridden) and RED1 in the file
         ("EL.RED.SUMINISTRO.A,EL.INSITU.SUMINISTRO.A,MA.INSITU.SUMINISTRO.A,MA.RED.SUMINISTRO.A,R1.RED.SUMINISTRO.A", "none", "sym"),
         ("EL.RED.SUMINISTRO.A,R1.RED.SUMINISTRO.A,R2.RED.SUMINISTRO.A", "sym", "none"),
+        ("EL.RED.SUMINISTRO.A,R1.RED.SUMINISTRO.A,R2.RED.SUMINISTRO.A", "none", "sym"),
+        ("EL.RED.SUMINISTRO.A,R2.RED.SUMINISTRO.A,R1.RED.SUMINISTRO.A", "sym", "sym"),
         ("EL.RED.SUMINISTRO.A,MA.INSITU.A_RED.A,MA.INSITU.A_NEPB.B,TS.INSITU.A_RED.B", "sym", "sym"),
         // unusable sets: a carrier without grid supply factor
         ("EL.RED.SUMINISTRO.A,GN.INSITU.SUMINISTRO.A", "none", "none"),
